@@ -137,9 +137,8 @@ def _no_updates(o):
     return o[0] != "upd"
 
 
-def r3(ctx, cfg):
+def r3(ctx, cfg, R="C03.R3"):
     F, P = cfg.facts, cfg.prov
-    R = "C03.R3"
     f = ctx.need_fn(R, KEY)
     if f is None:
         return
